@@ -41,4 +41,25 @@ a, b = "<!-- STATUS:BEGIN -->", "<!-- STATUS:END -->"
 if a in s:
     s = s[:s.index(a) + len(a)] + "\n" + table + "\n" + s[s.index(b):]
     open(p, "w").write(s)
+srows = ["| seed | property | what the change does | needs, to manifest | confirmed by us | check verdict |", "| --- | --- | --- | --- | --- | --- |"]
+for m in sorted(glob.glob(os.path.join(here, "seeded", "*", "meta.json"))):
+    d = json.load(open(m))
+    tag = os.path.basename(os.path.dirname(m))
+    cr = d.get("check_result", {})
+    if d.get("caught_by"):
+        verdict = "caught by `%s`%s" % (d["caught_by"], " with a failing input" if cr.get("failing_input_found") else " (no failing input found)")
+    else:
+        verdict = "MISSED" + ((": " + d["missed_note"]) if d.get("missed_note") else "")
+    if d.get("strengthened"):
+        verdict += " — " + d["strengthened"]
+    def cell(x):
+        return str(x).replace("|", "\\|").replace("\n", " ")[:260]
+    srows.append("| %s | %s | %s | %s | %s | %s |" % (tag, d["property"], cell(d.get("summary", "")), cell(d.get("needs", "")),
+                 "yes" if d.get("confirmed_by_us", {}).get("all") else "NO: " + cell({k: v for k, v in d.get("confirmed_by_us", {}).items() if v is False}), cell(verdict)))
+stable = "\n".join(srows)
+s = open(p).read()
+a, b = "<!-- SEEDED:BEGIN -->", "<!-- SEEDED:END -->"
+if a in s:
+    s = s[:s.index(a) + len(a)] + "\n" + stable + "\n" + s[s.index(b):]
+    open(p, "w").write(s)
 print(table)
